@@ -261,13 +261,17 @@ class Cluster:
 
         while True:
             if task not in self._clusters[c]['tasks']['running']:
-                # THIS CHECK DOESN"T WORK FIX IT SOMEHOW
-                if (machine not in self._clusters[c]['resources'][
-                    'available'] and (machine not in
-                        self._clusters[c]['resources'][
-                            'ingest'] and machine not in
-                        self.get_idle_resources(
-                            observation))):
+                # An ingest task must run on a machine that has been
+                # provisioned for ingest; any other task on a machine that
+                # is available or reserved (idle) for its observation.
+                if ingest:
+                    valid = machine in self._clusters[c]['resources'][
+                        'ingest']
+                else:
+                    valid = (machine in self._clusters[c]['resources'][
+                        'available'] or machine in self.get_idle_resources(
+                        observation))
+                if not valid:
                     raise RuntimeError
                 if ingest:
                     # Ingest resources allocated separately from scheduler
